@@ -255,3 +255,35 @@ twin("c03-twin-len-local", "C03", (RFC, "        if len(self.requestlist) > 1:\n
 fault("c03-gethandler-none", "C03", "R03c", (HM, '    raise GopherExceptions.FileNotFound(selector, "no handler found", protocol)', "    return None"))
 twin("c03-twin-raise-local", "C03", (HM, '    raise GopherExceptions.FileNotFound(selector, "no handler found", protocol)', '    err = GopherExceptions.FileNotFound(selector, "no handler found", protocol)\n    raise err'))
 fault("c03-write-state", "C03", "R03d", (FILE, "        self.vfs.copyto(self.getselector(), wfile)\n", '        self.vfs.copyto(self.getselector(), wfile)\n        with self.vfs.open(self.getselector() + ".hits", "a") as fp:\n            fp.write("x")\n'))
+
+# ======================================================================= C13
+fault("c13-d7-unfixed", "C13", "R13a", (HTTP, "return self.getrenderstr(entry, html.escape(url))", "return self.getrenderstr(entry, url)"))
+fault("c13-dirend-unescaped", "C13", "R13a", (HTTP, "' [<A HREF=\"%s\">view with gopher</A>]' % html.escape(\n            entry.geturl(self.server.server_name, self.server.server_port)\n        )", "' [<A HREF=\"%s\">view with gopher</A>]' % entry.geturl(\n            self.server.server_name, self.server.server_port\n        )"))
+fault("c13-name-unescaped", "C13", "R13a", (HTTP, "            retstr += html.escape(entry.getname())\n        else:\n            retstr += html.escape(entry.getselector())", "            retstr += entry.getname()\n        else:\n            retstr += html.escape(entry.getselector())"))
+fault("c13-selector-unescaped", "C13", "R13a", (HTTP, "            retstr += html.escape(entry.getname())\n        else:\n            retstr += html.escape(entry.getselector())", "            retstr += html.escape(entry.getname())\n        else:\n            retstr += entry.getselector()"))
+fault("c13-title-unescaped", "C13", "R13a", (HTTP, 'retstr += "\\n<HTML><HEAD><TITLE>Gopher"\n        if self.entry.getname():\n            retstr += ": " + html.escape(self.entry.getname())', 'retstr += "\\n<HTML><HEAD><TITLE>Gopher"\n        if self.entry.getname():\n            retstr += ": " + self.entry.getname()'))
+fault("c13-404-unescaped", "C13", "R13a", (HTTP, "        self.wfile.write(html.escape(msg).encode(errors=\"surrogateescape\"))\n        self.wfile.write(b\"</TT><HR>", "        self.wfile.write(msg.encode(errors=\"surrogateescape\"))\n        self.wfile.write(b\"</TT><HR>"))
+fault("c13-wap-404-unescaped", "C13", "R13a", (WAP, 'wfile.write(html.escape(msg).encode(errors="surrogateescape") + b"\\n")', 'wfile.write(msg.encode(errors="surrogateescape") + b"\\n")'))
+fault("c13-wap-name-unescaped", "C13", "R13a", (WAP, "            thisname = html.escape(entry_name)\n", "            thisname = entry_name\n"))
+fault("c13-wap-text-unescaped", "C13", "R13a", (WAP, 'wfile.write(html.escape(line).encode(errors="surrogateescape") + b"\\n")', 'wfile.write(line.encode(errors="surrogateescape") + b"\\n")'))
+fault("c13-wap-title-unescaped", "C13", "R13a", (WAP, "retval += '<card id=\"index\" title=\"%s\" newcontext=\"true\">' % html.escape(title)", "retval += '<card id=\"index\" title=\"%s\" newcontext=\"true\">' % self.entry.getname()"))
+fault("c13-attr-noquote", "C13", "R13a", (HTTP, "return self.getrenderstr(entry, html.escape(url))", "return self.getrenderstr(entry, html.escape(url, quote=False))"))
+fault("c13-quote-safe-quotes", "C13", "R13a", (HTTP, "return self.getrenderstr(entry, html.escape(url))", "return self.getrenderstr(entry, urllib.parse.quote(url, safe='/:\"<>'))"))
+fault("c13-redirect-unescaped", "C13", "R13a", (URL, "        url = html.escape(url)\n", ""))
+fault("c13-subtype-unescaped", "C13", "R13a", (HTTP, "                retstr += html.escape(subtype.group()[1:])", "                retstr += entry.getname()[1:]"))
+twin("c13-twin-escape-local", "C13", (HTTP, "            retstr += html.escape(entry.getname())\n        else:\n            retstr += html.escape(entry.getselector())", "            shown = html.escape(entry.getname())\n            retstr += shown\n        else:\n            retstr += html.escape(entry.getselector())"))
+twin("c13-twin-fstring", "C13", (HTTP, "            retstr += '<A HREF=\"%s\">' % url", "            retstr += f'<A HREF=\"{url}\">'"))
+twin("c13-twin-quote-for-escape", "C13", (HTTP, "return self.getrenderstr(entry, html.escape(url))", "return self.getrenderstr(entry, urllib.parse.quote(url, safe='/:'))"))
+fault("c13-header-name", "C13", "R13b", (HTTP, '            self.wfile.write(f"Content-Type: {mimetype}\\r\\n\\r\\n".encode())', '            self.wfile.write(f"Content-Disposition: inline; filename={self.entry.getname()}\\r\\n".encode())\n            self.wfile.write(f"Content-Type: {mimetype}\\r\\n\\r\\n".encode())'))
+fault("c13-header-mimetype-from-request", "C13", "R13b", (HTTP, "            mimetype = self.adjustmimetype(mimetype)\n", "            mimetype = self.adjustmimetype(mimetype)\n            if \"type\" in self.formvals:\n                mimetype = self.formvals[\"type\"][0]\n"))
+twin("c13-twin-header-order", "C13", (HTTP, '            self.wfile.write(b"HTTP/1.0 200 OK\\r\\n")\n            if self.entry.getmtime() is not None:', '            self.wfile.write(b"HTTP/1.0 200 OK\\r\\n")\n            self.wfile.write(b"Server: pygopherd\\r\\n")\n            if self.entry.getmtime() is not None:'))
+fault("c13-redirect-filter-quote", "C13", "R13c", (URL, "            and self.selector.find('\"') == -1\n", ""))
+fault("c13-redirect-filter-lf", "C13", "R13c", (URL, '            and self.selector.find("\\n") == -1\n', ""))
+fault("c13-block-no-prefix", "C13", "R13d", (GP, '                        " " + x + "\\r\\n"', '                        x + "\\r\\n"'))
+fault("c13-block-split-n", "C13", "R13d", (GP, 'for x in entry.getea(blockname.upper()).splitlines()', 'for x in entry.getea(blockname.upper()).split("\\n")'))
+fault("c13-block-raw", "C13", "R13d", (GP, '                + "".join(\n                    [\n                        " " + x + "\\r\\n"\n                        for x in entry.getea(blockname.upper()).splitlines()\n                    ]\n                )', '                + " " + entry.getea(blockname.upper()) + "\\r\\n"'))
+twin("c13-twin-block-fstring", "C13", (GP, '                        " " + x + "\\r\\n"', '                        " " + x.rstrip() + "\\r\\n"'))
+fault("c13-title-no-collapse", "C13", "R13e", (HTML, '            title = re.sub(r"[\\s]+", " ", parser.titlestr)\n', "            title = parser.titlestr\n"))
+fault("c13-subject-no-collapse", "C13", "R13e", (MBOX, '            subject = re.sub(r"\\s+", " ", subject)\n', ""))
+fault("c13-title-collapse-spaces-only", "C13", "R13e", (HTML, 'title = re.sub(r"[\\s]+", " ", parser.titlestr)', 'title = re.sub(r" +", " ", parser.titlestr)'))
+twin("c13-twin-collapse-join-split", "C13", (HTML, 'title = re.sub(r"[\\s]+", " ", parser.titlestr)', 'title = re.sub(r"\\s+", " ", parser.titlestr).strip()'))
